@@ -113,5 +113,38 @@ theorem final_rel (prm : Params K) (ip : Vec K → Vec K → K) (sqrt : K → K)
   · intro s s' h _; exact Rel_of_eq _ _ (body_rel ip sqrt A P s s' h)
   · exact ⟨rfl, rfl, rfl, rfl, rfl, fun h => absurd rfl h⟩
 
+/-! #### exact preconditioner -/
+
+/-- with `A·(P v) = v` the first pass has `α = 1` and produces the zero residual vector -/
+theorem exact_first_pass (ip : Vec K → Vec K → K) (sqrt : K → K) (A : CRS K) (P : Vec K → Vec K)
+    (hAP : ∀ v z, v.size = A.nrows → spmv 1 A (P v) 0 z = v) (ws : Work K) (f x0 : Vec K) (e : K)
+    (hne : ip (residual f A x0) (P (residual f A x0)) ≠ 0) :
+    (body ip sqrt A P (init ip sqrt A ws f x0 e)).w.r = vclear A.nrows := by
+  show axpby (-(ip (residual f A x0) (P (residual f A x0)) /
+      ip (spmv 1 A (vcopy (P (residual f A x0))) 0 ws.q) (vcopy (P (residual f A x0)))))
+      (spmv 1 A (vcopy (P (residual f A x0))) 0 ws.q) 1 (residual f A x0) = vclear A.nrows
+  rw [vcopy_eq, hAP _ _ (residual_size' f A x0), div_self hne, axpby_cancel, residual_size']
+
+theorem exact_final (prm : Params K) (ip : Vec K → Vec K → K) (sqrt : K → K) (A : CRS K) (P : Vec K → Vec K)
+    (hAP : ∀ v z, v.size = A.nrows → spmv 1 A (P v) 0 z = v) (ws : Work K) (f x0 : Vec K) (nf : K)
+    (hne : ip (residual f A x0) (P (residual f A x0)) ≠ 0)
+    (hmax : 1 ≤ prm.maxiter)
+    (hstart : epsTol prm nf < absK (nrm ip sqrt (residual f A x0)))
+    (hz : nrm ip sqrt (vclear A.nrows) = 0) (heps : ¬ epsTol prm nf < 0) :
+    final prm ip sqrt A P ws f x0 nf = body ip sqrt A P (init ip sqrt A ws f x0 (epsTol prm nf)) := by
+  obtain ⟨m, hm⟩ : ∃ m, prm.maxiter = m + 1 := ⟨prm.maxiter - 1, by omega⟩
+  unfold final loop
+  rw [hm, loopN]
+  have hc : cond (epsTol prm nf) (init ip sqrt A ws f x0 (epsTol prm nf)) = true := by
+    simpa [cond, init] using hstart
+  rw [if_pos hc]
+  apply loopN_of_not_cond
+  have hr := exact_first_pass ip sqrt A P hAP ws f x0 (epsTol prm nf) hne
+  have hres : (body ip sqrt A P (init ip sqrt A ws f x0 (epsTol prm nf))).res = 0 := by
+    show nrm ip sqrt (body ip sqrt A P (init ip sqrt A ws f x0 (epsTol prm nf))).w.r = 0
+    rw [hr, hz]
+  simp only [cond, hres, absK_zero]
+  simpa using heps
+
 end CG
 end Amgcl.Solver
